@@ -216,6 +216,18 @@ def generate(tier, seed, ctx):
         ps.append(rng.uniform(-1, 1) if c < 0.5 else rng.choice([-1, 1]) * (1 - 10.0 ** rng.uniform(-12, -1)) if c < 0.9 else rng.uniform(-1e-3, 1e-3))
     for p in ps:
         R.append("c17.inverf " + hx(p))
+    # dense scan of the accuracy clause in log(1 - |p|), 1e-12 .. 1, either sign; one request per decade
+    # (the bisection/Ridder path from [-10,10] is fixed, so an error can hide in narrow bands of 1 - |p|)
+    step = 5e-4 if thorough else 1e-3
+    off = rng.random()
+    for sg in (1, -1):
+        for dec in range(-12, 0):
+            R.append("c17.inverfscan %d %s %s %s %s" % (sg, hx(10.0 ** dec), hx(10.0 ** (dec + 1)), hx(step), hx(off)))
+    # dense scan of Dawson (2e-7 absolute) and Erfi (1e-6 relative) on |x| <= 1, where the series/sum switch lies
+    n = 10000 if thorough else 2000
+    off = rng.random()
+    for sg in (1, -1):
+        R.append("c17.dawscan %d %s %s %d %s" % (sg, hx(0.0), hx(1.0), n, hx(off)))
     # coefficient tables
     lmax_tab = LMAX if thorough else 5
     for l in range(0, lmax_tab + 1):
@@ -464,6 +476,10 @@ def compare(rq, impl, model, ctx):
                         out.append(fail("corr", "Erfi differs from the model 2/sqrt(pi) exp(x^2) Dawson(x)", "Erfi(%r)=%r model %s" % (x, v, M.nstr(mm, 17))))
             ctx["nontrivial"].add((op, int(abs(x)), x < 0))
         return out
+    if op == "c17.inverfscan":
+        return scan_inverf(a, ti, ctx)
+    if op == "c17.dawscan":
+        return scan_dawson(a, ti, ctx)
     if op == "c17.inverf":
         p = fl(a[0])
         v = fl(ti[0])
@@ -562,6 +578,75 @@ def compare(rq, impl, model, ctx):
                 l, m, th, ph, vec, [M.nstr(r, 10) for r in ref])))
         return out
     return [fail("corr", "unknown op " + op)]
+
+
+def scan_inverf(a, ti, ctx):
+    """|Inv_Erf(p) - erfinv(p)| <= 1e-4 on a dense scan; reference scipy (erfcinv of the exact 1-|p| next to 1),
+    re-checked with mpmath for every point that fails"""
+    out = []
+    ps = [fl(t) for t in ti[0::2]]
+    vs = [fl(t) for t in ti[1::2]]
+    bump(ctx, "inverfscan points", len(ps))
+    if not ps:
+        return [fail("corr", "Inv_Erf scan returned no point", "")]
+    try:
+        import numpy as np
+        from scipy import special
+        P = np.array(ps)
+        ref = np.where(np.abs(P) < 0.5, special.erfinv(P), np.sign(P) * special.erfcinv(1.0 - np.abs(P)))
+        err = np.abs(np.array(vs) - ref)
+        err = np.where(np.isnan(err), np.inf, err)
+        idx = [int(i) for i in np.nonzero(err > 0.9e-4)[0]]
+        worst(ctx, "inverf scan abs err", float(err.max()))
+    except ImportError:
+        idx = range(len(ps))
+    M = mp()
+    bad = []
+    for i in idx:
+        e = abs(M.mpf(vs[i]) - M.erfinv(M.mpf(ps[i]))) if not (math.isnan(vs[i]) or math.isinf(vs[i])) else M.inf
+        worst(ctx, "inverf scan abs err", e if e != M.inf else 1e300)
+        if not e <= 1e-4:
+            bad.append((ps[i], vs[i], e))
+    if bad:
+        bad.sort(key=lambda t: -t[2])
+        p_, v_, e_ = bad[0]
+        out.append(fail("prop", "Inv_Erf misses erfinv by more than 1e-4",
+                        "%d of %d scanned points; worst: Inv_Erf(%r) = %r, 1-|p| = %.6g, error %s" % (len(bad), len(ps), p_, v_, 1 - abs(p_), M.nstr(e_, 4))))
+    ctx["nontrivial"].add(("inverfscan", a[0], a[1]))
+    return out
+
+
+def scan_dawson(a, ti, ctx):
+    out = []
+    xs = [fl(t) for t in ti[0::3]]
+    ds = [fl(t) for t in ti[1::3]]
+    es = [fl(t) for t in ti[2::3]]
+    bump(ctx, "dawscan points", len(xs))
+    M = mp()
+    badd, bade = [], []
+    for x, d, e in zip(xs, ds, es):
+        xm = M.mpf(x)
+        rd = M.sqrt(M.pi) / 2 * M.exp(-xm * xm) * M.erfi(xm)
+        re_ = M.erfi(xm)
+        ed = abs(M.mpf(d) - rd)
+        worst(ctx, "dawson scan abs err", ed)
+        if not ed <= 2e-7:
+            badd.append((float(ed), x, d))
+        if x != 0:
+            ee = abs(M.mpf(e) - re_) / abs(re_)
+            worst(ctx, "erfi scan rel err", ee)
+            if not ee <= 1e-6:
+                bade.append((float(ee), x, e))
+    if badd:
+        badd.sort(reverse=True)
+        out.append(fail("prop", "Dawson_Integral misses 2e-7 absolute accuracy",
+                        "%d of %d scanned points; worst: D(%r) = %r, error %.3g" % (len(badd), len(xs), badd[0][1], badd[0][2], badd[0][0])))
+    if bade:
+        bade.sort(reverse=True)
+        out.append(fail("prop", "Erfi misses 1e-6 relative accuracy",
+                        "%d of %d scanned points; worst: Erfi(%r) = %r, relative error %.3g" % (len(bade), len(xs), bade[0][1], bade[0][2], bade[0][0])))
+    ctx["nontrivial"].add(("dawscan", a[0], a[3]))
+    return out
 
 
 def finalize(ctx, exe):
